@@ -71,6 +71,23 @@ CLAIMED = {
              "Gallina fnmatch validated against glibc fnmatch(3); tie through verif_hooks::layout_rules::lookup (real SectionRule::new/from_rules/lookup) under catch_unwind.",
         technique="Coq proof (structural induction over rule lists and patterns) + model/implementation correspondence by vm_compute",
         design_ref="DESIGN.md §3 C15"),
+    "C39": dict(
+        text="S1. The traversal (activate_group / do_pending_work / send_work / activation counter / delay queue) is a labelled transition system, one step per critical section. Proved for ALL "
+             "reachable states, i.e. all interleavings, any number of groups and any request graph: no_lost_work (work in a slot is never behind a parked worker), requests_are_routed, "
+             "terminal_closure (a terminal state without reported error has every group parked with empty queues, counter 0, delay queue empty, and handled set = exactly the closure of the roots) and "
+             "every_run_finite (a natural-number potential strictly decreases at every step). 'No group's state handled by two threads' is Rust move semantics, structural in the model.",
+        note="Trusted: Coq kernel + vm_compute, no axioms; hand model; sequentially consistent interleavings (weak-memory effects of the Relaxed counter on non-TSO hardware are outside the model); "
+             "tie (T3) = event log recorded inside the critical sections of a verif_hooks build, replayed through the model's validator (Replay.v) for generated programs x thread counts x "
+             "perturbation seeds; handler contents abstracted to a successor function (validated by C05).",
+        technique="Coq proof: invariants over a transition system (all interleavings) + potential-function termination + trace validation of real executions",
+        design_ref="DESIGN.md §3 C39, Appendix C.1"),
+    "C05": dict(
+        text="S1 at the reference-graph level: C39_terminal_closure proves, for every request graph and every schedule, that the kept set is exactly the closure of the roots under the successor "
+             "(relocation-reference) relation. That the real handlers emit exactly the relocation targets, and the root set (entry, init_array, start/stop sections, ...) — is validated on generated "
+             "programs: kept set read from the output vs closure computed from the generator's graph, and run-time equivalence with --no-gc-sections.",
+        note="Trusted: as C39; generator tools/objgen.py computes the expected closure independently; roots KEEP/retain/notes/exported symbols are not in the generated stream (partial on the root set).",
+        technique="Coq proof (closure = handled set at every terminal state of the transition system) + model/implementation correspondence on generated reference graphs",
+        design_ref="DESIGN.md §3 C05"),
 }
 
 PENDING_REASON = "not claimed yet: model/theorems for this property are not built in this revision (see DESIGN.md §8 construction order)"
